@@ -20,6 +20,7 @@ TARGET_NATIVE = os.path.join(WORK, "target-native")
 def build_driver():
     extra = {
         "core/engine/src/vm/code_block.rs::native_c03dump": gen_dump.generate().encode(),
+        "core/engine/src/optimizer/pass/strength_reduction.rs::native_c05probe": open(os.path.join(VERIF, "c05/probe.rs"), "rb").read(),
         "utils/verif_c03/Cargo.toml": open(os.path.join(VERIF, "c03/driver/Cargo.toml"), "rb").read(),
         "utils/verif_c03/src/main.rs": open(os.path.join(VERIF, "c03/driver/src/main.rs"), "rb").read(),
     }
